@@ -5,6 +5,7 @@ from ..probe import call
 from ..ref import bits
 
 LEVEL = "exploration"
+BRANCH_TARGETS = ['pyModeS.decoder.uplink:uplink_icao', 'pyModeS.decoder.uplink:bds', 'pyModeS.decoder.uplink:ic', 'pyModeS.decoder.uplink:lockout', 'pyModeS.decoder.uplink:uplink_fields', 'pyModeS.decoder.uplink:pr']
 TECHNIQUE = 'runtime monitoring: Annex 10 uplink frame builder as oracle, exhaustive field product'
 LEVEL_TEXT = 'UF x RR x DI x RRS and UF11 PR x CL x IC enumerated completely on every run; addresses and remaining bits sampled.'
 EXHAUSTIVE = True
